@@ -180,6 +180,21 @@ def make_font(rng, version):
         glyphs["C"] = gen_paint(rng, rng.randint(1, 3), npal, None)
         glyphs["B"] = gen_paint(rng, rng.randint(1, 5), npal, "C")
         glyphs["A"] = gen_paint(rng, rng.randint(2, 6), npal, rng.choice(["B", "C"]))
+        if rng.random() < 0.4:
+            # a PaintColrGlyph UNDER a transform (directly, through layers, through the group-opacity composite): the accumulated transform goes on
+            # the wrapping <g> once and must not be applied again to the referenced glyph's elements
+            ref = {"Format": 11, "Glyph": rng.choice(["B", "C"])}
+            plain = {"Format": 10, "Glyph": rng.choice(LAYER_GLYPHS), "Paint": gen_fill(rng, npal)}
+            shape = rng.choice(["direct", "layers", "group", "twice"])
+            if shape == "direct":
+                glyphs["A"] = {"Format": 1, "Layers": [plain, gen_transform_wrap(rng, ref)]}
+            elif shape == "layers":
+                glyphs["A"] = gen_transform_wrap(rng, {"Format": 1, "Layers": [ref, plain]})
+            elif shape == "group":
+                glyphs["A"] = gen_transform_wrap(rng, {"Format": 32, "CompositeMode": "src_in", "SourcePaint": {"Format": 1, "Layers": [plain, ref]},
+                                                       "BackdropPaint": {"Format": 2, "PaletteIndex": 0, "Alpha": rng.choice([0.5, 0.25, 0.75])}})
+            else:
+                glyphs["A"] = gen_transform_wrap(rng, gen_transform_wrap(rng, ref))
         font["COLR"] = builder.buildCOLR(glyphs, version=1)
         desc = glyphs
     font["CPAL"] = builder.buildCPAL(palettes)
